@@ -361,6 +361,34 @@ example :
     [[("a", 20000, 7500), ("b", 40000, 4500)], [("a", 10000, 5000), ("b", 20000, 3000)], [("b", 20000, 9000)]] := by
   decide +kernel
 
+/-- the option handling in front of it (`check_options`, run before any analysis): when it reports no
+    issue, the fungal multipliers are positive, every requested rule name is a rule of the requested
+    strictness and every requested category is known; the ruleset has been built and cached, it is
+    the one `get_ruleset` hands to the analysis afterwards (a cache hit, state unchanged), and it
+    reads as the spec says.  (When an issue is reported nothing was cached: `checkOptions_bad`.) -/
+theorem options_checked_then_ruleset (parsed : String → Except Err (List Rule)) (allCats : List String)
+    (q : Rulesets.Req) (st st' : Rulesets.State) (inv : Rulesets.Inv parsed st)
+    (h : Rulesets.checkOptions parsed allCats q st = .ok (true, st')) :
+    ∃ rs rules m, Rulesets.getRuleset parsed q st' = .ok (rs, st') ∧ Rulesets.Inv parsed st' ∧
+      parsed q.strictness = .ok rules ∧ Rulesets.reqMul q = .ok m ∧ 0 < q.cmul.1 ∧ 0 < q.nmul.1 ∧
+      (∀ n ∈ q.names, ∃ r ∈ rules, r.name = n) ∧ (∀ c ∈ q.cats, c ∈ allCats) ∧
+      rs.read st'.heap = Rulesets.wanted rules (sortDedupStr q.names) (sortDedupStr q.cats) m := by
+  obtain ⟨rs, rules, hg, hg2, hp, hc, hn, hnames, hcats⟩ := Rulesets.checkOptions_ok parsed allCats q st st' h
+  obtain ⟨inv', k, rules', _, _, h2, h3, h4, h5, h6⟩ := ruleset_of_request parsed q st st' rs hg inv
+  rw [hp] at h5
+  cases h5
+  exact ⟨rs, rules, k.mul, hg2, inv', hp, h4, hc, hn, hnames, hcats, by rw [h6, h2, h3]⟩
+
+example :
+    let parsed : String → Except Err (List Rule) := fun _ =>
+      .ok [{ name := "a", category := "c", cutoff := 10000, neighbourhood := 5000, conditions := .single false "x" },
+           { name := "b", category := "d", cutoff := 20000, neighbourhood := 3000, conditions := .single false "y" }]
+    ((Rulesets.checkOptions parsed ["c", "d"] ⟨"strict", ["b"], ["d"], true, (1, 2), (3, 2)⟩ {}).toOption.map (·.1),
+     (Rulesets.checkOptions parsed ["c", "d"] ⟨"strict", ["zz"], [], true, (1, 2), (3, 2)⟩ {}).toOption.map (·.1),
+     (Rulesets.checkOptions parsed ["c", "d"] ⟨"strict", [], [], false, (0, 1), (3, 2)⟩ {}).toOption.map (·.1))
+    = (some true, some false, some false) := by
+  decide +kernel
+
 /-! ### the regenerated text parses back (thm 7) -/
 
 /-- thm 7 (`reparse_printed`) for every list `L` of `or`-operands the parser can return (a CONDITIONS
